@@ -731,6 +731,10 @@ def search(run, deep):
         if why:
             run.fail_input("history", {"steps": seq, "rng_state": repr(state)}, observed=why,
                            what="query/mutate/query history %s: %s" % (seq, why))
+        inp2, why2 = default_trigger_case(run)
+        run.case(("default-trigger-strict-subs", str(inp2)[:80]), nontrivial=True)
+        if why2:
+            run.fail_input("default-trigger", inp2, observed=why2, what=why2)
         inp, why = routing_case(run)
         run.case(("routing", str(inp)), nontrivial=True)
         if why:
@@ -903,6 +907,58 @@ def _mk_ant(A, counter, position):
 HISTORY_STEPS = ["query", "iadd_inner_ant", "iadd_inner_det", "append_list", "rebuild_string", "iadd_outer"]
 
 
+_strict_cls = None
+
+
+def strict_class():
+    """a user subclass whose own trigger is STRICTER than any-hit (needs two hit antennas by default)"""
+    global _strict_cls
+    if _strict_cls is None:
+        pyrex = _pyrex()
+
+        class Strict(pyrex.Detector):
+            def set_positions(self, subsets):
+                self.subsets = list(subsets)
+                self.antenna_positions = [s.position for s in subsets]
+
+            def triggered(self, antenna_requirement=2, require_mc_truth=False):
+                return sum(bool(a.is_hit_mc_truth if require_mc_truth else a.is_hit) for a in self) >= antenna_requirement
+        _strict_cls = Strict
+    return _strict_cls
+
+
+def default_trigger_case(run):
+    """a detector that keeps the DEFAULT trigger is triggered exactly when some antenna in it is hit - whatever stricter
+    triggers its sub-detectors define for themselves"""
+    pyrex = _pyrex()
+    st = {"id": 0, "tag": 0, "p_above": 0.0}
+    subs, hits = [], []
+    for _ in range(run.rng.randint(1, 3)):
+        ants = []
+        for _a in range(run.rng.randint(1, 3)):
+            hit = run.rng.random() < 0.3
+            mc = hit and run.rng.random() < 0.5
+            ants.append(ant_class()(_next(st, "id"), hit, mc, False))
+            hits.append((hit, mc))
+        subs.append(strict_class()(ants))
+
+    class Outer(pyrex.Detector):          # default `triggered`
+        def set_positions(self, subsets):
+            self.subsets = list(subsets)
+    outer = Outer(subs)
+    inp = {"sub_detector_hits": [[(bool(a.is_hit), bool(a.is_hit_mc_truth)) for a in s] for s in subs]}
+    for mc in (False, True):
+        want = any(m if mc else h for h, m in hits)
+        try:
+            got = bool(outer.triggered(require_mc_truth=mc))
+        except TypeError as e:
+            return inp, "default trigger raised %s" % e
+        if got != want:
+            return dict(inp, require_mc_truth=mc), ("default trigger of a detector of strict sub-detectors is %s although %s antenna is hit"
+                                                    % (got, "some" if want else "no"))
+    return inp, None
+
+
 def routing_case(run):
     """flat combination of custom detectors with differing signatures: each receives exactly the
     keywords it accepts (independent recomputation, no Lean model involved)"""
@@ -940,6 +996,10 @@ def build_property_case(run):
     b = ("G", [gen_bnode(run, st, run.rng.randint(0, 2), pool) for _ in range(run.rng.randint(1, 3))])
     allp = sorted({p_ for s_ in pool for p_ in s_})
     kw = ["antenna_class"] + run.rng.sample([x for x in allp if x != "antenna_class"], min(2, len(allp) - 1))
+    if len(kw) > 1 and run.rng.random() < 0.4:
+        # a keyword set that some sub-detectors do not recognise AT ALL: they must still be built (with no keywords)
+        kw = kw[1:]
+        run.count("build_keywords_disjoint_from_some_subdetector")
     recipes = []
     status, got, b = bbuild_impl(run, b, kw, recipes)
     inp = {"tree": btoks(b), "kw": kw, "recipes": recipes}
